@@ -8,50 +8,50 @@ VERIF = os.path.dirname(os.path.dirname(os.path.abspath(__file__)))
 P = {}
 
 P["C10"] = dict(
-    text="Static who-may-iterate / who-may-call analysis over the type-checked MIR of lib+bin: every place where the iteration order of a HashMap/HashSet is created is an obligation that must be discharged by a dominating sort or by a commutative loop body (pure calls and hash insertions only, no early exit); no Debug print of hash containers reachable from the entry points; zero calls to clock/thread/env/atomic/cell/address APIs; every static immutable and Freeze. For this single-threaded code base these are the only channels through which two runs on equal inputs could differ, and the rule sees all sites, not the ones a test happens to execute.",
+    text="Static who-may-iterate / who-may-call analysis over the type-checked MIR of lib+bin: every place where the iteration order of a HashMap/HashSet is created is an obligation that must be discharged by a dominating sort or by a commutative loop body (pure calls and hash insertions only, no early exit); no Debug print of hash containers reachable from the entry points; zero calls to clock/thread/env/atomic/cell/address APIs; every static immutable and Freeze. For this single-threaded code base these are the only channels through which two runs on equal inputs could differ, and the rule sees all sites, not the ones a test happens to execute. Added: audited sort keys are checked as expressions.",
     note="Decides the structural clause 'no hash order, time, address or global mutable state can reach an output or diagnostic'. Trusted: rustc MIR and callee resolution; std summaries (which methods yield hash order); sort keys are assumed injective; OS/file-system races out of scope.",
     technique="static analysis: MIR dataflow (iterator provenance, dominance of sort, loop-body effect allowlist) + who-may-call lint + static-item audit via rustc_private driver",
     design_ref="3 DET, 4 C10",
 )
 
 P["C18"] = dict(
-    text="Static agreement check between four tables that must say the same thing: the usage text (src/usage_help.md, parsed at check time), the getopts registrations in make_opts, the option keys read in parse_command and the literal arms of parse_output_format, all extracted from the type-checked MIR (string-comparison chains, aggregate constants, closure argument tuples, validator closures). Every documented format/parameter/default/alias/option must be accepted as documented, every accepted parameter is validated against an audited value set, unknown names and leftover parameters end in error+Err, each option key drives the documented setting (sticky |= / &= ! across groups), the default format and derived extensions are as stated, a derived name equal to the input is rejected on every path, and per group the bytes are either printed or written (never both), with the written bytes being the formatter's result. All arms and all options are covered, not the combinations a test picks.",
+    text="Static agreement check between four tables that must say the same thing: the usage text (src/usage_help.md, parsed at check time), the getopts registrations in make_opts, the option keys read in parse_command and the literal arms of parse_output_format, all extracted from the type-checked MIR (string-comparison chains, aggregate constants, closure argument tuples, validator closures). Every documented format/parameter/default/alias/option must be accepted as documented, every accepted parameter is validated against an audited value set, unknown names and leftover parameters end in error+Err, each option key drives the documented setting (sticky |= / &= ! across groups), the default format and derived extensions are as stated, a derived name equal to the input is rejected on every path, and per group the bytes are either printed or written (never both), with the written bytes being the formatter's result. All arms and all options are covered, not the combinations a test picks. Added: `--color` and `-t` only take effect in the group that gives them; the budget is stored unchanged.",
     note="Decides table agreement and the control structure of the driver; getopts' own parsing of attached/detached spellings is trusted. The value sets of tables/cli.json were audited by reading the formatters. Does not decide that the formatter output itself is right (C11/C12).",
     technique="static analysis: constant decision-table extraction from MIR + table differ against the parsed usage text; dominance / control-region checks for rejection paths",
     design_ref="3 TAB-cli, 4 C18",
 )
 
 P["C11"] = dict(
-    text="Static dispatch-table check: for every OutputFormat variant the arm of format_output must call the formatter, with the constant parameters, that the format's name implies (radix 10/16, separator, bits per digit, chunk width, dump geometry), with variant fields passed to the parameter of the same meaning and the produced text being what is returned; wrapper formatters forward the audited constants; every formatter parameter guarded by a panic (match radix / assert base) only ever receives a handled constant or a command-line value validated to that set; parameters used as divisors are validated non-zero. Covers all 20 variants and all call sites.",
-    note="Decides the dispatch/parameter clause and crash-freedom of parameter domains, not that each formatter's text decodes back to the bits for every length (value-level, needs decoders; not claimed).",
+    text="Static dispatch-table check: for every OutputFormat variant the arm of format_output must call the formatter, with the constant parameters, that the format's name implies (radix 10/16, separator, bits per digit, chunk width, dump geometry), with variant fields passed to the parameter of the same meaning and the produced text being what is returned; wrapper formatters forward the audited constants; every formatter parameter guarded by a panic (match radix / assert base) only ever receives a handled constant or a command-line value validated to that set; parameters used as divisors are validated non-zero. Covers all 20 variants and all call sites. Added: parameter roles of the formatters are recognised from their use (radix, group width, address unit) and must match the dispatch; a units-of-measure inference (bit positions / output byte counts / addresses in address units; + and - link, * and / do not) over the formatters; no remainder-dropping iteration; granule counts round up by exactly divisor - 1; Intel HEX address width.",
+    note="Decides the dispatch/parameter clause and crash-freedom of parameter domains, not that each formatter's text decodes back to the bits for every length (value-level, needs decoders; not claimed). Known finding: Intel HEX prints only 16 address bits (no extended address records).",
     technique="static analysis: enum-switch arm extraction from MIR, constant-argument table differ, panic-guarded parameter domain inference with call-site check",
     design_ref="3 TAB-fmt, 4 C11",
 )
 
 P["C03"] = dict(
-    text="Interprocedural error-discipline analysis over every function reachable from the entry points (225 functions returning Result<_,()>): a path-state search per function (state: reported-must / reported-may / abstract Result tags / flag values / open diagnostic parents / is_last_iteration knowledge) with fixpoint summaries decides (ERR1) every path that returns Err(()) has pushed an error message, so assemble()'s own assertion cannot fail and no failure is silent; (ERR3) every Unresolved / Ok(None) produced in a last pass is preceded by a message; (ERR2-top) the assembled output is stored only on paths where no error can have been reported since the last stop_at_errors barrier, nothing that can report follows the store, and every Ok path stores it; (ERR4) the driver writes/prints only behind the output test and main's exit status follows the verdict; (ERR5) no Result of a fallible call made with the caller's report is dropped; (PAIR) push_parent/pop_parent balance. All paths and call sites are covered, where each test exercises one.",
+    text="Interprocedural error-discipline analysis over every function reachable from the entry points (225 functions returning Result<_,()>): a path-state search per function (state: reported-must / reported-may / abstract Result tags / flag values / open diagnostic parents / is_last_iteration knowledge) with fixpoint summaries decides (ERR1) every path that returns Err(()) has pushed an error message, so assemble()'s own assertion cannot fail and no failure is silent; (ERR3) every Unresolved / Ok(None) produced in a last pass is preceded by a message; (ERR2-top) the assembled output is stored only on paths where no error can have been reported since the last stop_at_errors barrier, nothing that can report follows the store, and every Ok path stores it; (ERR4) the driver writes/prints only behind the output test and main's exit status follows the verdict; (ERR5) no Result of a fallible call made with the caller's report is dropped; (PAIR) push_parent/pop_parent balance. All paths and call sites are covered, where each test exercises one. Added: (ARGS) every `query.args[i]` of a built-in or user function is behind the argument-count check; (WRITE) the real file server answers Ok only behind the Ok edges of file creation and of writing the given data.",
     note="Decides the loud-failure / clean-success clauses structurally. NOT decided: general panic freedom (451 bounds/overflow assertions and 231 unwrap/expect/unreachable sites rest on run-time invariants; the crash classes that are structural are decided under C13 (byte/char units) and C19 (recursion, unchecked arithmetic)) and I/O fault injection (static counterpart only: every std::fs error arm of FileServerReal pushes and returns Err, via ERR1). Audited exceptions are in tables/err.json, one named function each. Assumes messages pushed under an error-kind parent count as errors (Report::message wraps in parents).",
     technique="static analysis: interprocedural path-sensitive dataflow over MIR (must/may 'reported' facts, Result-tag tracking through `?`, greatest/least fixpoint summaries R/Mok/E/A), dominance checks for the driver",
     design_ref="3 ERR, 4 C03",
 )
 
 P["C02"] = dict(
-    text="Structural necessary conditions of 'a success is a confirmed fixed point', decided on all paths of the two iteration drivers and the seven stateful resolvers: (FIX1) every result-delivering return of resolve_iteratively and of the asm-block driver is dominated by a pass run with is_last_iteration = true (no guessing) and by the success edge of that pass; (FIX2) each resolver that keeps a value between passes loads the previous value before storing the new one, compares them, and on the `differs` edge can only return Unresolved or Err, every other Resolved being behind the `unchanged` edge or an audited shortcut; (FIX3) `resolved = true` is stored only under optimize_statically_known && <item>_statically_known (&& is_first_iteration, && single match for instructions); (ERR3) an unstable value in a last pass pushes an error. Removing any of these lets a stale guess be emitted or a non-converged run succeed.",
+    text="Structural necessary conditions of 'a success is a confirmed fixed point', decided on all paths of the two iteration drivers and the seven stateful resolvers: (FIX1) every result-delivering return of resolve_iteratively and of the asm-block driver is dominated by a pass run with is_last_iteration = true (no guessing) and by the success edge of that pass; (FIX2) each resolver that keeps a value between passes loads the previous value before storing the new one, compares them, and on the `differs` edge can only return Unresolved or Err, every other Resolved being behind the `unchanged` edge or an audited shortcut; (FIX3) `resolved = true` is stored only under optimize_statically_known && <item>_statically_known (&& is_first_iteration, && single match for instructions); (ERR3) an unstable value in a last pass pushes an error. Removing any of these lets a stale guess be emitted or a non-converged run succeed. Added: the single-candidate flag is recognised by its definition (`len() == 1`); delivered values come from the confirming pass.",
     note="Decides the structure that makes the fixed point genuine, not that the solution found is the smallest consistent encoding for every program (value-level). BigInt equality ignores the size field, so size-only changes are detected through the labels that follow (documented upstream behaviour).",
     technique="static analysis: dominance / edge-dominance over MIR, happens-before of field load vs store, comparison-operand provenance, control-dependence of shortcut stores",
     design_ref="3 FIX, 4 C02",
 )
 
 P["C09"] = dict(
-    text="Static shape check of the iteration budget: the pass counter starts at 0 and is only incremented by 1 behind `iter_count < max_iterations`, the value returned is the counter itself, the first/last flags are exactly iter_count == 1 / == max_iterations in both drivers, the confirming pass runs with constant flags (false, true), max_iterations is read by no function other than the audited three (so it can bound the number of passes but not enter any value), assertions are evaluated only behind is_last_iteration, `--iters 0` is rejected, and FIX1 (a result is only delivered after a no-guess pass).",
+    text="Static shape check of the iteration budget: the pass counter starts at 0 and is only incremented by 1 behind `iter_count < max_iterations`, the value returned is the counter itself, the first/last flags are exactly iter_count == 1 / == max_iterations in both drivers, the confirming pass runs with constant flags (false, true), max_iterations is read by no function other than the audited three (so it can bound the number of passes but not enter any value), assertions are evaluated only behind is_last_iteration, `--iters 0` is rejected, and FIX1 (a result is only delivered after a no-guess pass). Added: the value an asm block delivers is computed by its confirming pass; `no value yet` is answered only after that pass; the reported pass count is resolve_iteratively's return value unchanged; the budget stored is the number given to -t unchanged.",
     note="Decides that the budget can only influence whether a confirmed result is reached, through the who-reads audit and the loop shape. Not decided: that two different budgets reach the same fixed point when several exist (behavioural).",
     technique="static analysis: def-use of the loop counter, who-reads audit of a field, dominance checks",
     design_ref="3 FIX4, 4 C09",
 )
 
 P["C08"] = dict(
-    text="Static audit of everything the two --debug-no-optimize-* switches can influence: (GATE) every function that touches either switch is in an audited list (a new read site is reported); (FIX3) items are frozen as resolved only under the static-known conjunction; (SK) is_value_statically_known is decided per Expr variant by a path search: a variant may be reported known only as a literal, through the provider's answer, or when every child operand was confirmed known on that path, never for asm blocks, with an exhaustive match; (TAB-idx) the rule-prefix index is a sound over-approximation of the full scan only if writer, reader and matcher normalise alike: same lower-casing, same cap, same token admission predicate, every prefix length probed, same skipping of blanks, same exclusion of sub-rule blocks, and match_instr shares dedup and the literal-part filter between both paths.",
-    note="Decides the soundness conditions of both optimisations structurally; equality of outputs for all programs is differential and not claimed. Known finding: the index reader stops at blanks the matcher skips (see known_findings.json).",
+    text="Static audit of everything the two --debug-no-optimize-* switches can influence: (GATE) every function that touches either switch is in an audited list (a new read site is reported); (FIX3) items are frozen as resolved only under the static-known conjunction; (SK) is_value_statically_known is decided per Expr variant by a path search: a variant may be reported known only as a literal, through the provider's answer, or when every child operand was confirmed known on that path, never for asm blocks, with an exhaustive match; (TAB-idx) the rule-prefix index is a sound over-approximation of the full scan only if writer, reader and matcher normalise alike: same lower-casing, same cap, same token admission predicate, every prefix length probed, same skipping of blanks, same exclusion of sub-rule blocks, and match_instr shares dedup and the literal-part filter between both paths. Added: both candidate loops (index path and full scan) hand every candidate to the matcher and keep every result; first-pass-verdict rule.",
+    note="Decides the soundness conditions of both optimisations structurally; equality of outputs for all programs is differential and not claimed. Known finding: the index reader stops at blanks the matcher skips (see known_findings.json). Known finding: with a budget of one pass the static shortcut decides success (`-t 1`).",
     technique="static analysis: who-touches audit, path search with per-child confirmation state, constant/callee agreement between sibling functions",
     design_ref="3 TAB-idx/FIX3, 4 C08",
 )
@@ -64,21 +64,21 @@ P["C07"] = dict(
 )
 
 P["C13"] = dict(
-    text="Units-of-measure inference over every usize value of the crate (union-find through copies, +/- , comparisons, ranges, argument/parameter and result links across calls): byte offsets (str::len, str::get, Span offsets, CharIndices) and character indices (Vec<char> length/index, Chars::count) must never meet in one value class (UNIT); no byte offset is moved by a literal number of bytes outside three audited ASCII cases (UNIT4); every token length comes from the character walker or char::len_utf8, never a literal (UNIT2); only the walker builds spans from offsets (UNIT3); Walker::get_span adds span_offset to both ends, Span::join is (min starts, max ends) on one file, Report::message wraps in the parent stack, and push_parent/pop_parent balance on every path (SPAN, PAIR). These decide, for all source texts including multi-byte characters anywhere, that locations are byte ranges on character boundaries converted consistently to line/column.",
+    text="Units-of-measure inference over every usize value of the crate (union-find through copies, +/- , comparisons, ranges, argument/parameter and result links across calls): byte offsets (str::len, str::get, Span offsets, CharIndices) and character indices (Vec<char> length/index, Chars::count) must never meet in one value class (UNIT); no byte offset is moved by a literal number of bytes outside three audited ASCII cases (UNIT4); every token length comes from the character walker or char::len_utf8, never a literal (UNIT2); only the walker builds spans from offsets (UNIT3); Walker::get_span adds span_offset to both ends, Span::join is (min starts, max ends) on one file, Report::message wraps in the parent stack, and push_parent/pop_parent balance on every path (SPAN, PAIR). These decide, for all source texts including multi-byte characters anywhere, that locations are byte ranges on character boundaries converted consistently to line/column. Added: a duplicate declaration is reported at the declaration being made, the note at the existing one.",
     note="Decides the location-validity clause structurally (two genuine defects found and repaired: CharCounter and the tokenizer fallback). Not decided: that the first error of every fault kind lies on the faulty line (behavioural).",
     technique="static analysis: interprocedural units-of-measure (byte vs char) type inference by union-find over MIR, provenance of token lengths, who-may-construct lint, path-state balance check",
     design_ref="3 UNIT, 4 C13",
 )
 
 P["C19"] = dict(
-    text="Static resource-limit analysis: (LIM1) every strongly connected component of the resolved call graph (higher-order helpers inlined) must be broken by a depth-guard function (parse depth / evaluation depth) that checks before recursing, must not re-create that guard's counter inside the cycle, and any residual cycle must be an audited structural recursion over an owned tree; (LIM1b) loops that wrap an expression into a new node per iteration must count against the nesting limit; (LIM2) an interprocedural magnitude-class taint (WORD / U32 / DATA) from every user-to-machine integer conversion through locals, struct fields, arguments and results flags each unchecked +, *, << on a user-sized value and each subtraction without a dominating or structural `>=` argument; (LIM3) user-sized loop bounds; (LIM4) every big-integer primitive tests BIGINT_MAX_BITS / zero before the num-bigint operation. Every flagged site is either repaired (8 fix: commits), discharged with a written bound argument (tables/arith.json, one site per line), or listed as a known finding with its failing input.",
+    text="Static resource-limit analysis: (LIM1) every strongly connected component of the resolved call graph (higher-order helpers inlined) must be broken by a depth-guard function (parse depth / evaluation depth) that checks before recursing, must not re-create that guard's counter inside the cycle, and any residual cycle must be an audited structural recursion over an owned tree; (LIM1b) loops that wrap an expression into a new node per iteration must count against the nesting limit; (LIM2) an interprocedural magnitude-class taint (WORD / U32 / DATA) from every user-to-machine integer conversion through locals, struct fields, arguments and results flags each unchecked +, *, << on a user-sized value and each subtraction without a dominating or structural `>=` argument; (LIM3) user-sized loop bounds; (LIM4) every big-integer primitive tests BIGINT_MAX_BITS / zero before the num-bigint operation. Every flagged site is either repaired (8 fix: commits), discharged with a written bound argument (tables/arith.json, one site per line), or listed as a known finding with its failing input. Added: LIM3 per-caller cap obligations and capped-field stores (widths), cap-source verification, depth-counter resets through helpers.",
     note="Decides where limits are enforced structurally; wall-time and memory bounds as numbers are dynamic and not claimed. Contracts (tables/lim.json) assume positions inside the output are in-memory sized; the missing cap on the output size is itself a listed finding. Known findings: unguarded recursion through nested #if/asm/sub-rules/operator chains (F13), the output-position, type-width and --group families (F12).",
     technique="static analysis: call-graph SCC analysis with guard/reset nodes; interprocedural taint with magnitude classes over MIR arithmetic; dominance-based guard recognition",
     design_ref="3 LIM, 4 C19",
 )
 
 P["C05"] = dict(
-    text="Static table agreement for the expression language: the tokenizer's symbol table (longest match first), the (token, operator) tables of each precedence level with their combinator (left/right associativity) and the order of levels, the evaluator's operator -> primitive dispatch for integers and booleans, the num-bigint operation behind each BigInt primitive (truncating division, truncated remainder, arithmetic shifts), literal radix prefixes and bits per digit, string escapes, encoding names versus the arms of ExprString::to_bigint (its panic arm must be unreachable), and the three builtin-function registries are all extracted from MIR (promoted constant tables, enum switches, string-comparison chains) and compared with the audited operator table of the language (tables/operators.json); LIM4 checks that the checked primitives test their limits first. ERR1 (C03) covers that ill-typed operations are errors.",
+    text="Static table agreement for the expression language: the tokenizer's symbol table (longest match first), the (token, operator) tables of each precedence level with their combinator (left/right associativity) and the order of levels, the evaluator's operator -> primitive dispatch for integers and booleans, the num-bigint operation behind each BigInt primitive (truncating division, truncated remainder, arithmetic shifts), literal radix prefixes and bits per digit, string escapes, encoding names versus the arms of ExprString::to_bigint (its panic arm must be unreachable), and the three builtin-function registries are all extracted from MIR (promoted constant tables, enum switches, string-comparison chains) and compared with the audited operator table of the language (tables/operators.json); LIM4 checks that the checked primitives test their limits first. ERR1 (C03) covers that ill-typed operations are errors. Added: exact value-operation profile of every big-integer primitive; value shapes of the built-in functions.",
     note="Decides which operation each operator/level/literal form denotes and that the dispatch is complete; the arithmetic inside num-bigint and the bit loops of slice/concat are value-level and not claimed. The reference table was transcribed from the pinned tree and read against the documented operator list.",
     technique="static analysis: constant-table extraction from MIR (promoted arrays, enum-switch arms, str-eq chains) + table differ against an audited language table",
     design_ref="3 TAB-op, 4 C05",
@@ -93,28 +93,28 @@ P["C04"] = dict(
 )
 
 P["C06"] = dict(
-    text="Static must-pass-through and who-may-write analysis of the layout code: every call that writes bits into the output BitVec is in an audited table of writers (a new writer is reported); in build_output every emission is dominated by the success edges of check_bank_usage, check_bank_output called with the same position and size as the write, and the overlap checker fed with the same position/size (so an item is checked against its bank window and all previous items before it is written); the position is computed by the one audited address->output-position function; the phases (banks resolved, iterative resolution, stop_at_errors, output) run in order behind their success edges; BitVec::write grows the vector with zeros only (no other initialiser), truncation never happens after a write; fill_banks extends exactly to the end of a bank flagged fill; and the layout arithmetic (outp + (a - addr) * bits + offset, window ends, label alignment) is checked for unchecked/wrapping operations on input-sized operands (LIM2).",
+    text="Static must-pass-through and who-may-write analysis of the layout code: every call that writes bits into the output BitVec is in an audited table of writers (a new writer is reported); in build_output every emission is dominated by the success edges of check_bank_usage, check_bank_output called with the same position and size as the write, and the overlap checker fed with the same position/size (so an item is checked against its bank window and all previous items before it is written); the position is computed by the one audited address->output-position function; the phases (banks resolved, iterative resolution, stop_at_errors, output) run in order behind their success edges; BitVec::write grows the vector with zeros only (no other initialiser), truncation never happens after a write; fill_banks extends exactly to the end of a bank flagged fill; and the layout arithmetic (outp + (a - addr) * bits + offset, window ends, label alignment) is checked for unchecked/wrapping operations on input-sized operands (LIM2). Added: the overlap checker records only items with bits, asks about and records the same position/size, and answers `no overlap` only after both neighbour comparisons; the bank range test involves position + item size; in every case where a bank has a size the bank-overlap decision reads it; alignments are computed on absolute addresses.",
     note="Decides the structural clause 'nothing is written unchecked, unchecked positions cannot wrap, gaps can only be zero'; the arithmetic identity position = outp + (a - addr) x bits for every value is read off the single audited expression, not proved for all integers. Known findings: remaining unchecked position arithmetic on absurdly large addresses (LIM2 position family, shared with C19).",
     technique="static analysis: dominance / success-edge must-pass-through over MIR, argument-provenance equality between checker and writer calls, who-may-call audit, magnitude-class taint on layout arithmetic",
     design_ref="3 MPT/PIPE, 4 C06",
 )
 
 P["C12"] = dict(
-    text="Static agreement between what is written and what is listed: every bit-writing call either records a span with the same offset, size and address as the write (span = write, compared by operand provenance) or is an audited span-less writer; listings iterate spans sorted by output offset and print the span's own offset/addr/size fields (no recomputation), take the data from the same BitVec at [offset, offset+size) and the excerpt from the span's own source location through the byte-unit-correct excerpt path (UNIT/SRC rules of C13); the symbol formats walk the declaration list in declaration order, skip exactly the no_emit symbols, print the resolved value field of the definition, and the Mesen offset arithmetic is checked for unchecked operations.",
+    text="Static agreement between what is written and what is listed: every bit-writing call either records a span with the same offset, size and address as the write (span = write, compared by operand provenance) or is an audited span-less writer; listings iterate spans sorted by output offset and print the span's own offset/addr/size fields (no recomputation), take the data from the same BitVec at [offset, offset+size) and the excerpt from the span's own source location through the byte-unit-correct excerpt path (UNIT/SRC rules of C13); the symbol formats walk the declaration list in declaration order, skip exactly the no_emit symbols, print the resolved value field of the definition, and the Mesen offset arithmetic is checked for unchecked operations. Added: layout units (bit / byte / address unit) in the listings; symbol listings sorted by the audited tie-free key expression.",
     note="Decides the structural agreement (rows come from the same records as the bits); that each formatter's text encodes those numbers correctly in every radix is value-level and not claimed beyond the constant-parameter checks of C11.",
     technique="static analysis: operand-provenance equality between write and span record, field-use audit in the listing formatters, sort-before-iterate dominance, enum/flag filter extraction from MIR",
     design_ref="3 MPT, 4 C12",
 )
 
 P["C01"] = dict(
-    text="Structural necessary conditions of 'bits = language definition, rejected programs are errors', decided on every path: (REJ) in the instruction matcher and resolver, zero surviving matches, more than one surviving match of equal smallest size, an undefined symbol on the last pass, a failed range test and a failed assertion each reach an error report and an Err/Unresolved return on the last iteration, with no path that picks a candidate silently; the candidate chosen is the recorded unique match and its production is evaluated with the argument values bound by that match at the instruction's own address context; (PIPE) the phases run in order behind their success edges and the output is built only after stop_at_errors; (MPT) every instruction/data/label site emits or defines through the audited functions with the encoding/address just resolved; (RNG) the range tables of C04; (ERR5) no Err from the evaluation/matching layer is dropped or overwritten before inspection anywhere reachable from the entry points.",
+    text="Structural necessary conditions of 'bits = language definition, rejected programs are errors', decided on every path: (REJ) in the instruction matcher and resolver, zero surviving matches, more than one surviving match of equal smallest size, an undefined symbol on the last pass, a failed range test and a failed assertion each reach an error report and an Err/Unresolved return on the last iteration, with no path that picks a candidate silently; the candidate chosen is the recorded unique match and its production is evaluated with the argument values bound by that match at the instruction's own address context; (PIPE) the phases run in order behind their success edges and the output is built only after stop_at_errors; (MPT) every instruction/data/label site emits or defines through the audited functions with the encoding/address just resolved; (RNG) the range tables of C04; (ERR5) no Err from the evaluation/matching layer is dropped or overwritten before inspection anywhere reachable from the entry points. Added: match identity (rule block, rule, arguments), both lookahead attempts, alignment on absolute addresses, the matcher shape rules of C07.",
     note="Decides the rejection and dataflow clauses structurally. NOT decided: that the emitted bits equal an independent reference semantics for every program (needs an executable reference and differential runs: out of this family). Known finding F16 (width-0 types) shared with C04.",
     technique="static analysis: path-state search for rejection paths over MIR, dominance / success-edge checks of the pipeline, provenance of the chosen candidate and its arguments, abstract interpretation of range predicates, interprocedural dropped-error analysis",
     design_ref="3 REJ/PIPE/MPT, 4 C01",
 )
 
 P["C14"] = dict(
-    text="Static confinement and pairing rules for file inclusion: (INC1) every file name that reaches FileServer::get_handle from the assembler is the result of filename_navigate on the including file's name (or a root file name), at every call site including the recursive one; (INC2) every non-<std> result of filename_navigate is behind the success edge of filename_validate_relative, `..` with nothing left to pop is reported and rejected and the pop happens only on the other edge, only <std>/ names are returned verbatim, FileServerReal::get_handle never registers a <std>/ name from the disk, and the file-system API (std::fs, Path::exists/...) is called only by the audited methods of FileServerReal; (INC3) the recursive inclusion happens only on the false edge of the include-stack membership test of the navigated name (the true edge reports and fails), the stack is pushed before and popped after the recursion, the #once set is consulted before the file is opened and filled exactly on the `AST contains DirectiveOnce` edge; (INC4) in incbin and incbinstr/inchexstr the slice of the file contents is dominated by the failing-with-error tests `start >= len` and `end > len`, whose arithmetic is saturating/checked (LIM2).",
+    text="Static confinement and pairing rules for file inclusion: (INC1) every file name that reaches FileServer::get_handle from the assembler is the result of filename_navigate on the including file's name (or a root file name), at every call site including the recursive one; (INC2) every non-<std> result of filename_navigate is behind the success edge of filename_validate_relative, `..` with nothing left to pop is reported and rejected and the pop happens only on the other edge, only <std>/ names are returned verbatim, FileServerReal::get_handle never registers a <std>/ name from the disk, and the file-system API (std::fs, Path::exists/...) is called only by the audited methods of FileServerReal; (INC3) the recursive inclusion happens only on the false edge of the include-stack membership test of the navigated name (the true edge reports and fails), the stack is pushed before and popped after the recursion, the #once set is consulted before the file is opened and filled exactly on the `AST contains DirectiveOnce` edge; (INC4) in incbin and incbinstr/inchexstr the slice of the file contents is dominated by the failing-with-error tests `start >= len` and `end > len`, whose arithmetic is saturating/checked (LIM2). Added: one #once set for all root files; every path component goes through the `..` test; incbin slices the raw bytes; nested includes (known finding).",
     note="Decides confinement, cycle and #once structure and that ranges are tested before slicing; that the returned digits equal the file's digits for every content is value-level and not claimed. One genuine defect found and repaired (<std>/ names reached the disk).",
     technique="static analysis: value-provenance of call arguments over MIR, success-edge dominance, who-may-call audit of the file-system API, edge-dominance of recursion by the membership test, range-test dominance",
     design_ref="3 INC, 4 C14",
